@@ -2,6 +2,7 @@
 import json
 import os
 import subprocess
+import sys
 
 import proggen as pg
 import vplib
@@ -394,9 +395,14 @@ def parse_result(r):
         lw = r[p2]
         return ("ok", pb, r[p2 + 1:p2 + 1 + lw]), p2 + 1 + lw
 
-    d["A"], pos = take_triple_or(r, pos, ok_a)
-    d["B"], pos = take_triple_or(r, pos, ok_b)
-    d["C"], pos = take_triple_or(r, pos, ok_c)
+    try:
+        d["A"], pos = take_triple_or(r, pos, ok_a)
+        d["B"], pos = take_triple_or(r, pos, ok_b)
+        d["C"], pos = take_triple_or(r, pos, ok_c)
+    except (IndexError, TypeError):
+        if os.environ.get("VERIF_DEBUG"):
+            sys.stderr.write("garbled c02 result: %s\n" % str(r)[:300])
+        return {"status": "garbled"}
     d["peak"] = r[pos] if pos < len(r) else None
     return d
 
